@@ -217,6 +217,14 @@ theorem hash_examples (hashFn : Str → UInt64) (c : UInt64) (v : Str → List S
   · intro n t rest
     simp [generateHash, hashLoop, rotl1]
 
+/-- A terminal policy that applied (channel id, or a present non "-bin" header) ends the fold: whatever policies
+    follow it do not influence the hash. -/
+theorem hash_terminal_cuts (hashFn : Str → UInt64) (c : UInt64) (v : Str → List Str) (p : HashPolicy)
+    (hp : applies v p = true) (ht : isTerminal p = true) (ps1 ps2 ps2' : List HashPolicy) :
+    generateHash hashFn c v (ps1 ++ p :: ps2) = generateHash hashFn c v (ps1 ++ p :: ps2') := by
+  unfold generateHash
+  rw [hashLoop_terminal_cuts hashFn c v p hp ht ps2 ps2' ps1 0 false]
+
 /-! ### SelectConfig -/
 
 /-- `SelectConfig` composes the three choices: the first matching route, a cluster of that route by the WRR draw,
